@@ -239,6 +239,9 @@ func runC05(tier string, seed uint64, o *Out) error {
 		o.Count("async/queries")
 	}
 	c05Nested(tier, r, o)
+	// own generator state: the shared splitmix64 streams of neighbouring seeds are shifted copies of
+	// each other and re-synchronise in rejection loops; a far-away state keeps the seeds independent
+	c05NestedShapes(tier, NewRNG(seed*1000003+505), o)
 	return nil
 }
 
@@ -308,5 +311,192 @@ func c05Nested(tier string, r *RNG, o *Out) {
 		s2.Stop()
 		o.Line("C05 N %s %s", hx(q), verdict)
 		o.Count("nested/" + verdict)
+	}
+}
+
+// ---------------------------------------------------------------- NS lines: nested paths x row SHAPES
+// A nested path with numeric brackets (d.items[1].x) is evaluated against rows whose shape at each
+// position varies from row to row: array, map with numeric keys ({"0":..,"1":..}), map with names,
+// scalar, NULL, absent.  Statelessness: the result of a row on a long-lived stream (after rows of
+// other shapes) and through Emit + synchronous sink must equal the result of the same row on a FRESH
+// stream.  Nested values have no Gallina model: this is an implementation-level differential whose
+// reference is the real engine without history.
+type nseg struct {
+	name string // field name, or "" for a bracket
+	idx  int
+}
+
+func c05Path(r *RNG) (string, []nseg) {
+	root := r.Pick([]string{"d", "e", "meta"})
+	names := []string{"x", "y", "items", "tags", "v"}
+	var segs []nseg
+	text := root
+	n := 1 + r.Intn(3)
+	hasBr := false
+	for i := 0; i < n; i++ {
+		if r.Intn(2) == 0 || (i == n-1 && !hasBr) {
+			k := r.Intn(3)
+			segs = append(segs, nseg{idx: k})
+			text += fmt.Sprintf("[%d]", k)
+			hasBr = true
+		} else {
+			nm := names[r.Intn(len(names))]
+			segs = append(segs, nseg{name: nm})
+			text += "." + nm
+		}
+	}
+	return text, append([]nseg{{name: root}}, segs...)
+}
+
+func c05Leaf(r *RNG) any {
+	switch r.Intn(5) {
+	case 0:
+		return nil
+	case 1:
+		return r.Intn(100)
+	case 2:
+		return float64(r.Intn(40)) + 0.5
+	case 3:
+		return r.Pick([]string{"a0", "b1", "t", ""})
+	}
+	return r.Bool()
+}
+
+// a value under which the remaining path segs may or may not resolve; the container kind at every
+// position is drawn independently for every row
+func c05Shape(r *RNG, segs []nseg) any {
+	if len(segs) == 0 {
+		if r.Intn(4) == 0 {
+			return map[string]any{"x": c05Leaf(r)}
+		}
+		return c05Leaf(r)
+	}
+	sg := segs[0]
+	if sg.name != "" {
+		switch r.Intn(8) {
+		case 0:
+			return nil
+		case 1:
+			return c05Leaf(r)
+		case 2:
+			return map[string]any{"other": 1} // name missing
+		}
+		return map[string]any{sg.name: c05Shape(r, segs[1:]), "z": c05Leaf(r)}
+	}
+	switch x := r.Intn(10); {
+	case x < 4: // array, possibly too short
+		n := r.Intn(4)
+		arr := make([]any, n)
+		for i := range arr {
+			if i == sg.idx {
+				arr[i] = c05Shape(r, segs[1:])
+			} else {
+				arr[i] = c05Leaf(r)
+			}
+		}
+		return arr
+	case x < 8: // map with numeric keys (sparse list as some JSON encoders emit it)
+		m := map[string]any{}
+		for i := 0; i < 3; i++ {
+			if r.Intn(4) != 0 {
+				if i == sg.idx {
+					m[fmt.Sprint(i)] = c05Shape(r, segs[1:])
+				} else {
+					m[fmt.Sprint(i)] = c05Leaf(r)
+				}
+			}
+		}
+		return m
+	case x == 8:
+		return nil
+	}
+	return c05Leaf(r)
+}
+
+func c05NestedShapes(tier string, r *RNG, o *Out) {
+	nq := 30
+	if tier == "thorough" {
+		nq = 300
+	}
+	for qi := 0; qi < nq; qi++ {
+		np := 1 + r.Intn(2)
+		var items []string
+		var paths [][]nseg
+		for i := 0; i < np; i++ {
+			t, segs := c05Path(r)
+			items = append(items, fmt.Sprintf("%s AS p%d", t, i))
+			paths = append(paths, segs)
+		}
+		q := "SELECT id, " + strings.Join(items, ", ") + " FROM stream"
+		if r.Intn(3) == 0 {
+			q += " WHERE id >= 0"
+		}
+		mkRow := func(i int) map[string]any {
+			row := map[string]any{"id": i}
+			for _, segs := range paths {
+				if r.Intn(8) == 0 {
+					continue // root absent
+				}
+				if v := c05Shape(r, segs[1:]); true {
+					if old, ok := row[segs[0].name]; ok && r.Bool() {
+						_ = old // two paths under one root: keep the first shape half of the time
+					} else {
+						row[segs[0].name] = v
+					}
+				}
+			}
+			return row
+		}
+		run := func(s *streamsql.Streamsql, row map[string]any) string {
+			return guard(func() string { res, err := s.EmitSync(row); return fmt.Sprintf("%v %v", res, err != nil) })
+		}
+		used := streamsql.New(streamsql.WithDiscardLog())
+		if used.Execute(q) != nil {
+			used.Stop()
+			o.Count("shapes/rejected")
+			continue
+		}
+		async := streamsql.New(streamsql.WithDiscardLog())
+		_ = async.Execute(q)
+		var mu sync.Mutex
+		var got []string
+		async.AddSyncSink(func(rs []map[string]any) {
+			mu.Lock()
+			for _, x := range rs {
+				got = append(got, fmt.Sprintf("%v false", x))
+			}
+			mu.Unlock()
+		})
+		const nrows = 8
+		var rows []map[string]any
+		var fresh, usedRes []string
+		for i := 0; i < nrows; i++ {
+			row := mkRow(i)
+			rows = append(rows, row)
+			f := streamsql.New(streamsql.WithDiscardLog())
+			if f.Execute(q) != nil {
+				f.Stop()
+				fresh = append(fresh, "execerr")
+			} else {
+				fresh = append(fresh, run(f, row))
+				f.Stop()
+			}
+			usedRes = append(usedRes, run(used, row))
+			async.Emit(row)
+		}
+		waitQuiet(func() int { mu.Lock(); defer mu.Unlock(); return len(got) })
+		used.Stop()
+		async.Stop()
+		mu.Lock()
+		asyncRes := append([]string(nil), got...)
+		mu.Unlock()
+		for i := 0; i < nrows; i++ {
+			a := "missing"
+			if len(asyncRes) == nrows {
+				a = asyncRes[i] // no WHERE filters a row here (id >= 0 holds), so positions correspond
+			}
+			o.Line("C05 NS %s # %d %s # fresh=%s used=%s async=%s", hx(q), i, hx(fmt.Sprintf("%v", rows[i])), hx(fresh[i]), hx(usedRes[i]), hx(a))
+			o.Count("shapes/rows")
+		}
 	}
 }
